@@ -1,0 +1,33 @@
+//go:build verif
+// +build verif
+
+package storage
+
+import "sync"
+
+// Verification hook (build tag verif): records the sub-steps of storageWaterBalance.
+
+type VerifSubstep struct {
+	Vol0, Vol1, Dt, AvgOutflow, AvgArea, Spill float64
+	Accepted                                   bool
+}
+
+var (
+	verifMu   sync.Mutex
+	verifSubs []VerifSubstep
+)
+
+func verifSubstep(vol0, vol1, dt, avgOutflow, avgArea, spill float64, accepted bool) {
+	verifMu.Lock()
+	verifSubs = append(verifSubs, VerifSubstep{vol0, vol1, dt, avgOutflow, avgArea, spill, accepted})
+	verifMu.Unlock()
+}
+
+// VerifSubsteps returns and clears the recorded sub-steps.
+func VerifSubsteps() []VerifSubstep {
+	verifMu.Lock()
+	defer verifMu.Unlock()
+	r := verifSubs
+	verifSubs = nil
+	return r
+}
